@@ -68,7 +68,7 @@ def strip_vers_wrap(canon):
     out = []
     for k, x in canon:
         if k == "Version" and not isinstance(x, str):
-            x = [i for i in x if i[1] not in ("VERS", "WRAP")]
+            x = [i for i in x if i[1].upper() not in ("VERS", "WRAP")]
         if not isinstance(x, str):
             # session mnemonics are a function of the list of original mnemonics (C13): compared through the originals
             x = [[i[0], i[2], i[3], i[4]] for i in x]
@@ -109,7 +109,7 @@ def classify(failure):
     return None
 
 
-def compare(run, make, a, b, case, origs, numeric=True):
+def compare(run, make, a, b, case, origs, numeric=True, read_case="preserve"):
     """write twins under a and b, re-read, compare. `make()` builds a fresh twin. Returns the two texts (or None).
     numeric=False (text curves): the data section is outside the property, only the headers are re-read and compared."""
     import lasio
@@ -122,11 +122,11 @@ def compare(run, make, a, b, case, origs, numeric=True):
     ra = rb = None
     ea = eb = None
     try:
-        ra = lasio.read(ta, mnemonic_case="preserve", ignore_data=not numeric)
+        ra = lasio.read(ta, mnemonic_case=read_case, ignore_data=not numeric)
     except Exception as e:
         ea = repr(e)
     try:
-        rb = lasio.read(tb, mnemonic_case="preserve", ignore_data=not numeric)
+        rb = lasio.read(tb, mnemonic_case=read_case, ignore_data=not numeric)
     except Exception as e:
         eb = repr(e)
     if ra is None and rb is None:
@@ -263,6 +263,25 @@ def run(run):
         if len(pend) >= 512:
             flush(run, pend)
     flush(run, pend)
+    # objects obtained by READING (mnemonic_case lower / upper: case-normalised sections, mnemonic_transforms on) and then written
+    # under two configurations
+    for i in range(run.budget(150, 3000)):
+        spec = lo.gen_spec(run.rng, ncurves=run.rng.choice([1, 2, 3]))
+        try:
+            text = write(lo.build(spec), dict(base, version=run.rng.choice([1.2, 2])))
+        except Exception:
+            continue
+        mc = run.rng.choice(["lower", "upper", "lower"])
+        a, b = gen_pair(run.rng)
+        if i % 3 == 0:
+            a, b = dict(base, version=1.2), dict(base, version=2)
+        try:
+            probe = lasio.read(text, mnemonic_case=mc)
+        except Exception:
+            continue
+        case = {"reread_text": text, "mnemonic_case": mc, "a": a, "b": b, "dlm": dlm_of(probe)}
+        run.case(case, nontrivial=True, tags=["reread", "case=" + mc, "versions=%s/%s" % (vkey(a["version"]), vkey(b["version"]))])
+        compare(run, lambda: lasio.read(text, mnemonic_case=mc), a, b, case, orig_values(probe), read_case=mc)
     # corpus
     skipped = 0
     for path in corpus_files():
@@ -307,7 +326,12 @@ def still_fails(spec_or_file, a, b):
                 self.failures.append(f)
     r = R()
     try:
-        if isinstance(spec_or_file, dict):
+        if isinstance(spec_or_file, dict) and "reread_text" in spec_or_file:
+            text, mc = spec_or_file["reread_text"], spec_or_file["mnemonic_case"]
+            probe = lasio.read(text, mnemonic_case=mc)
+            compare(r, lambda: lasio.read(text, mnemonic_case=mc), a, b, dict(spec_or_file, a=a, b=b, dlm=dlm_of(probe)), orig_values(probe),
+                    read_case=mc)
+        elif isinstance(spec_or_file, dict):
             pre = lo.build(spec_or_file)
             lo.pre_write_update(pre)
             compare(r, lambda: lo.build(spec_or_file), a, b, {"spec": spec_or_file, "a": a, "b": b, "dlm": dlm_of(pre)}, orig_values(pre))
@@ -364,6 +388,8 @@ def shrink(run, f):
 def replay(run, payload):
     c = payload["case"]
     a, b = fix_cfg(c["a"]), fix_cfg(c["b"])
+    if "reread_text" in c:
+        return still_fails({"reread_text": c["reread_text"], "mnemonic_case": c["mnemonic_case"]}, a, b) is None
     return still_fails(c["spec"] if "spec" in c else c["file"], a, b) is None
 
 
